@@ -27,7 +27,7 @@ def share_calculator(ctx, pr):
     return P.fn(p), bb
 
 
-def run(ctx):
+def _run(ctx):
     P = ctx.P
     n1 = ctx.inst("C05.N1", "minted share m <= d_i*S/r_i for both assets (E-ROUND)", floor=2)
     n2 = ctx.inst("C05.N2", "m >= min_i(d_i*S/r_i) - 1 (argument-wise on the min)", floor=2)
@@ -397,3 +397,9 @@ def run(ctx):
                 r5.fail("C05.R5:%s" % fl["key"], fl["fn"], fl["span"], "[%s] %s" % (i.id, fl["reason"]))
     ctx.assumptions.append("an address equal to the LP token contract can never spend its balance (cw20-base has no such path; trusted)")
     ctx.assumptions.append("m >= 1 follows from the zero-share guard (R1); moving exactly d_i: cw20 via TransferFrom(d_i) (R3, C07.R3), native via funds == declared (R5)")
+
+
+def run(ctx):
+    from .. import numeric
+    _run(ctx)
+    numeric.arith_base(ctx, "C05.B1")
